@@ -15,6 +15,16 @@ CHECKS = {
           "Shares the regex engine with ripgrep (trusted: matching one small haystack); haystack anchors excluded as the property says; CRLF lines with a bare CR only asserted when both readings agree; one known finding rooted in regex-automata is tolerated by exact signature.",
           "DESIGN.md section 3 C01"),
   # id: (implemented, category, technique, level text, level note, design ref)
+  "C02": (True, "exploration",
+          "proptest-driven generated cases; metamorphic relation across strategies (slice reference vs reader fragmentations/capacities/heap limits/file/mmap/multi-line request), slice run additionally checked against the LineModel",
+          "Tens of thousands of generated (matcher, configuration, input) cases; each compares the complete event stream and final byte count of search_slice with 4-8 other strategies: fragmented readers with hook-set buffer capacities down to 0/1 byte, the smallest sufficient heap limit found by bisection, search_path with and without mmap, inputs crossing the 64 KiB default buffer, and all of it again with multi_line(true) requested. Random exploration with shrinking.",
+          "Needs the verif-hooks capacity hook to make the buffer roll on small inputs; Interrupted reads are exercised in C16, not here.",
+          "DESIGN.md section 3 C02"),
+  "C16": (True, "fault_enumeration",
+          "fault enumeration over one generated run: sink stop and sink error at every event index, reader error and Interrupted at every read index; oracle = prefix of the uninterrupted event log",
+          "For each of tens of thousands of generated searches every event index (begin, match, context, break, binary notice) is used once as a stop point and once as an error point, and every read index once as an I/O error and once as Interrupted; delivered events must be exactly the prefix, finish exactly once after a stop and never after an error, the error returned. Complete over the fault points of each explored run; runs themselves are sampled.",
+          "An Interrupted read that some layer retries (search completes with full results) is accepted as well as one surfaced as an error: the property fixes the prefix/finish/error contract, not which layer retries.",
+          "DESIGN.md section 3 C16"),
   "C03": (True, "exploration",
           "exhaustive small-scope enumeration + proptest-driven random cases against a reference model (LineModel)",
           "Every input of up to 5 lines over a 5-symbol line alphabet and every match bitmap up to 9 lines (quick; 7/11 thorough), times the full product of context sizes 0..3, invert, passthru, stop-on-nonmatch, line numbers, LF/CRLF/NUL, 4 matcher kinds and 5 strategies is compared event by event with an independent grep model; plus thousands of random larger cases. Bounded-exhaustive, not a proof.",
